@@ -49,15 +49,14 @@ def _worker_body(pid, tier, wseed, n_examples, part):
            "violations": [], "invalid": 0, "first_invalid": None, "error": None, "seed": wseed}
     max_viol = 8
 
-    class _Stop(Exception):
-        pass
-
     @hypothesis.seed(wseed)
     @settings(max_examples=n_examples, database=None, deadline=None, derandomize=False,
               report_multiple_bugs=False, phases=[Phase.generate],
               suppress_health_check=[HealthCheck.too_slow, HealthCheck.data_too_large, HealthCheck.large_base_example])
     @given(st.data())
     def campaign(data):
+        if len(res["violations"]) >= max_viol:
+            return          # enough counter-examples collected: skip the rest of the budget
         trace = gen(D(data), tier)
         out = run(trace)
         res["evaluations"] += 1
@@ -79,13 +78,9 @@ def _worker_body(pid, tier, wseed, n_examples, part):
                     res["samples"].append(trace)
         if out["status"] == "violation":
             res["violations"].append((trace, out))
-            if len(res["violations"]) >= max_viol:
-                raise _Stop()
 
     try:
         campaign()
-    except _Stop:
-        pass
     finally:
         shims.cleanup_scratch()
     return res
